@@ -5,8 +5,11 @@
      debian-control/src/lossy/relations.rs   Relation::satisfied_by, Relations::satisfied_by
      debian-control/src/lossless/relations.rs
          Relations::satisfied_by, Entry::satisfied_by, Relation::name, Relation::version,
-         Relations::entries, Entry::relations, Relation::new, From<Vec<Relation>> for Entry,
-         From<Vec<Entry>> for Relations
+         Relations::entries, Entry::relations; the constructors Relation::new / simple,
+         From<Vec<Relation>> for Entry, From<Vec<Entry>> for Relations and the edits
+         Relation::set_version(Some(..)) / set_archqual are those of the C11 cone
+         (RelEdit.v, RelEditTree.v: the code as of /repo 5517d72), re-used here with the version
+         text supplied by [vshow]
 
    over an abstract version type: the section takes the version type [V], its comparison
    [vcmp] (<V as Ord>::cmp, which may panic: debversion's does, see DebVersion.v), its reader
@@ -15,8 +18,20 @@
    PartialEq::eq = (partial_cmp == Some(Equal))), so one comparison function is the whole
    interface.  `Iterator::all` / `Iterator::any` short-circuit, so a panicking alternative
    is only reached if everything before it let the iteration continue: [iter_all] and
-   [iter_any] keep that order.  No proofs in this file. *)
+   [iter_any] keep that order.
+
+   WHICH LOOKUP FORM CAN BE PASSED WHERE.  `lossy::Relation::satisfied_by(&self, impl VersionLookup)`
+   takes any of the three implementations.  The three field/entry-level evaluators
+   (`lossy::Relations::satisfied_by`, lossless `Relations::satisfied_by`, `Entry::satisfied_by`)
+   take `impl VersionLookup + Copy`; `HashMap<String, Version>` and `(String, Version)` are not
+   Copy, so only a closure (or a caller's own Copy type, which is again just a function
+   `&str -> Option<Version>`) type-checks there.  The types below say the same: the three
+   field/entry-level functions take a function [str -> option V]; only
+   [lossy_relation_satisfied_by] takes a [lookup].  [by_relation] is the all/any nesting a caller
+   has to write by hand to use a map or a pair on a whole field (the harness does).
+   No proofs in this file. *)
 From V.model Require Import Base RelLex RelParse DebVersion.
+From V.model Require RelEdit RelEditTree.
 
 (* VersionConstraint, in the arm order of the satisfied_by match *)
 Inductive vop : Type := OpGe | OpLe | OpEq | OpGt | OpLt.
@@ -54,21 +69,6 @@ Fixpoint iter_any {A} (p : A -> res bool) (l : list A) : res bool :=
   end.
 
 Definition is_some {A} (o : option A) : bool := match o with Some _ => true | None => false end.
-
-(* "find the first child satisfying p, take its index, splice there" written by recursion:
-   replace that child / insert right after it; None when no child satisfies p *)
-Fixpoint replace_first {A} (p : A -> bool) (new : A) (l : list A) : option (list A) :=
-  match l with
-  | [] => None
-  | x :: r => if p x then Some (new :: r)
-              else match replace_first p new r with Some r' => Some (x :: r') | None => None end
-  end.
-Fixpoint insert_after_first {A} (p : A -> bool) (ins : list A) (l : list A) : option (list A) :=
-  match l with
-  | [] => None
-  | x :: r => if p x then Some (x :: ins ++ r)
-              else match insert_after_first p ins r with Some r' => Some (x :: r') | None => None end
-  end.
 
 Section Sat.
   Variable V : Type.
@@ -138,8 +138,12 @@ Section Sat.
         end
     | None => Ok (is_some actual)
     end.
-  (* lossy::Relations::satisfied_by *)
-  Definition lossy_relations_satisfied_by (f : field) (pv : lookup) : res bool :=
+  (* lossy::Relations::satisfied_by(&self, impl VersionLookup + Copy): a closure *)
+  Definition lossy_relations_satisfied_by (f : field) (g : str -> option V) : res bool :=
+    iter_all (fun e => iter_any (fun r => lossy_relation_satisfied_by r (LFn g)) e) f.
+  (* not in the crate: `f.0.iter().all(|e| e.iter().any(|r| r.satisfied_by(pv.clone())))`, the
+     only way to evaluate a field against a map or a pair *)
+  Definition by_relation (f : field) (pv : lookup) : res bool :=
     iter_all (fun e => iter_any (fun r => lossy_relation_satisfied_by r pv) e) f.
 
   (* ---------------- lossless, on the syntax tree ---------------- *)
@@ -183,9 +187,9 @@ Section Sat.
     end.
 
   (* the closure inside Entry::satisfied_by *)
-  Definition ll_relation_satisfied_by (r : rtree) (pv : lookup) : res bool :=
+  Definition ll_relation_satisfied_by (r : rtree) (g : str -> option V) : res bool :=
     bind (ll_name r) (fun name =>
-      let actual := lookup_version pv name in
+      let actual := lookup_version (LFn g) name in
       bind (ll_version r) (fun ver =>
         match ver with
         | Some (vc, version) =>
@@ -195,12 +199,12 @@ Section Sat.
             end
         | None => Ok (is_some actual)
         end)).
-  (* Entry::satisfied_by *)
-  Definition ll_entry_satisfied_by (e : rtree) (pv : lookup) : res bool :=
-    iter_any (fun r => ll_relation_satisfied_by r pv) (r_relations e).
-  (* Relations::satisfied_by *)
-  Definition ll_relations_satisfied_by (t : rtree) (pv : lookup) : res bool :=
-    iter_all (fun e => ll_entry_satisfied_by e pv) (r_entries t).
+  (* Entry::satisfied_by(&self, impl VersionLookup + Copy) *)
+  Definition ll_entry_satisfied_by (e : rtree) (g : str -> option V) : res bool :=
+    iter_any (fun r => ll_relation_satisfied_by r g) (r_relations e).
+  (* Relations::satisfied_by(&self, impl VersionLookup + Copy) *)
+  Definition ll_relations_satisfied_by (t : rtree) (g : str -> option V) : res bool :=
+    iter_all (fun e => ll_entry_satisfied_by e g) (r_entries t).
 
   (* what name()/version() report for every alternative of a tree; an error as soon as one of
      them would panic (the evaluator itself may not get that far) *)
@@ -209,99 +213,70 @@ Section Sat.
   Definition tree_entry (e : rtree) : res (list rel) := mapM tree_rel (r_relations e).
   Definition tree_field (t : rtree) : res field := mapM tree_entry (r_entries t).
 
-  (* ---------------- lossless constructors ---------------- *)
-  Definition one_char_tok (c : char) : res rtree :=
-    if (c =? 62)%N then Ok (Tok R_ANGLE [c])
-    else if (c =? 60)%N then Ok (Tok L_ANGLE [c])
-    else if (c =? 61)%N then Ok (Tok EQUAL [c])
-    else Panic 13%N.                                 (* unreachable!() *)
-  (* Relation::new *)
-  Definition relation_new (name : str) (vc : option (vop * V)) : res rtree :=
-    match vc with
-    | None => Ok (Node RELATION [Tok IDENT name])
-    | Some (o, v) =>
-      bind (mapM one_char_tok (show_vop o)) (fun cts =>
-        Ok (Node RELATION [Tok IDENT name; Tok WHITESPACE [32%N];
-              Node VERSION [Tok L_PARENS [40%N]; Node CONSTRAINT cts; Tok WHITESPACE [32%N];
-                            Tok IDENT (vshow v); Tok R_PARENS [41%N]]]))
+  (* ---------------- lossless constructors and edits: those of RelEdit.v ---------------- *)
+  Definition vcn_of (o : vop) : RelEdit.vcn :=
+    match o with
+    | OpGe => RelEdit.VGe | OpLe => RelEdit.VLe | OpEq => RelEdit.VEq | OpGt => RelEdit.VGt | OpLt => RelEdit.VLt
     end.
-  (* fn inject copies a subtree into a builder: identity on the modelled trees *)
-  Fixpoint sep_by {A} (sep : list A) (l : list A) : list A :=
-    match l with
-    | [] => []
-    | [x] => [x]
-    | x :: r => x :: sep ++ sep_by sep r
-    end.
-  (* From<Vec<Relation>> for Entry: the separator token is stored under kind COMMA *)
-  Definition entry_from (rs : list rtree) : rtree :=
-    Node ENTRY (sep_by [Tok WHITESPACE [32%N]; Tok COMMA [124%N]; Tok WHITESPACE [32%N]] rs).
+  Definition verspec_of (vc : option (vop * V)) : option (RelEdit.vcn * str) :=
+    match vc with Some (o, v) => Some (vcn_of o, vshow v) | None => None end.
+  (* Relation::new(name, version_constraint); Relation::simple(name) = new(name, None) *)
+  Definition relation_new (name : str) (vc : option (vop * V)) : rtree :=
+    RelEdit.relation_new name (verspec_of vc).
+  (* From<Vec<Relation>> for Entry ("|" under kind PIPE since /repo 40d0dc3) *)
+  Definition entry_from (rs : list rtree) : rtree := RelEdit.entry_from_relations RelEdit.fixed rs.
   (* From<Vec<Entry>> for Relations *)
-  Definition relations_from (es : list rtree) : rtree :=
-    Node ROOT (sep_by [Tok COMMA [44%N]; Tok WHITESPACE [32%N]] es).
+  Definition relations_from (es : list rtree) : rtree := RelEdit.relations_from_entries es.
 
-  Definition build_entry (e : list rel) : res rtree :=
-    rmap entry_from (mapM (fun r => relation_new (r_name r) (r_ver r)) e).
-  Definition build_field (f : field) : res rtree :=
-    rmap relations_from (mapM build_entry f).
+  Definition build_entry (e : list rel) : rtree :=
+    entry_from (map (fun r => relation_new (r_name r) (r_ver r)) e).
+  Definition build_field (f : field) : rtree := relations_from (map build_entry f).
 
-  (* ---------------- Relation::set_version(Some((vc, version))), relation without a parent ---- *)
-  (* This is the FIXED code of proposed_fixes/C12-set-version-strict-operators.patch: the
-     GreaterThan / LessThan arms write both characters.  Before the fix they wrote a single
-     R_ANGLE / L_ANGLE token ([constraint_tokens_before_fix]); the relation then printed as
-     `a (> 1)` and Relation::version() — hence satisfied_by — panicked on it (site 11). *)
-  Definition constraint_tokens (vc : vop) : list rtree :=
-    match vc with
-    | OpGe => [Tok R_ANGLE [62%N]; Tok EQUAL [61%N]]
-    | OpLe => [Tok L_ANGLE [60%N]; Tok EQUAL [61%N]]
-    | OpEq => [Tok EQUAL [61%N]]
-    | OpGt => [Tok R_ANGLE [62%N]; Tok R_ANGLE [62%N]]
-    | OpLt => [Tok L_ANGLE [60%N]; Tok L_ANGLE [60%N]]
-    end.
-  Definition constraint_tokens_before_fix (vc : vop) : list rtree :=
-    match vc with
-    | OpGt => [Tok R_ANGLE [62%N]]
-    | OpLt => [Tok L_ANGLE [60%N]]
-    | other => constraint_tokens other
-    end.
-  Definition version_node (ctoks : list rtree) (v : V) : rtree :=
-    Node VERSION [Tok L_PARENS [40%N]; Node CONSTRAINT ctoks; Tok WHITESPACE [32%N];
-                  Tok IDENT (vshow v); Tok R_PARENS [41%N]].
-  (* current_version present: splice_children(i..i+1, [new]); otherwise the green node gets
-     [" ", new] spliced in right after the name token (at 0 if there is none) and becomes the
-     relation's own new root *)
-  Definition set_version_some (ctoks : vop -> list rtree) (r : rtree) (vc : vop) (v : V) : rtree :=
+  (* Relation::set_version(Some((vc, v))): the VERSION child is replaced, or " (op v)" is inserted
+     after the architecture qualifier if there is one, else after the name (since /repo 198f3cc;
+     RelEditTree.set_version_cs, shown in proofs/RelEditTreeP.v to be what the in-place splice of
+     RelEdit.relation_set_version computes) *)
+  Definition set_version_some (r : rtree) (vc : vop) (v : V) : rtree :=
     match r with
     | Tok _ _ => r
-    | Node k cs =>
-      let new := version_node (ctoks vc) v in
-      match replace_first (is_node_of VERSION) new cs with
-      | Some cs' => Node k cs'
-      | None =>
-        match insert_after_first (is_tok_of IDENT) [Tok WHITESPACE [32%N]; new] cs with
-        | Some cs' => Node k cs'
-        | None => Node k (Tok WHITESPACE [32%N] :: new :: cs)
-        end
-      end
+    | Node k cs => Node k (RelEditTree.set_version_cs (Some (vcn_of vc, vshow v)) cs)
+    end.
+  (* Relation::set_archqual(q) *)
+  Definition set_archqual (r : rtree) (q : str) : rtree :=
+    match r with
+    | Tok _ _ => r
+    | Node k cs => Node k (RelEditTree.set_archqual_cs q cs)
     end.
 
-  (* the harness builds every versioned alternative through set_version: even positions from
-     Relation::simple(name) (insert path), odd positions from Relation::new(name, (=, v))
-     (replace path) *)
-  Definition sv_relation (ctoks : vop -> list rtree) (replace : bool) (r : rel) : res rtree :=
-    match r_ver r with
-    | None => relation_new (r_name r) None
-    | Some (vc, v) =>
-        rmap (fun t => set_version_some ctoks t vc v)
-             (relation_new (r_name r) (if replace then Some (OpEq, v) else None))
+  (* The harness gives every versioned alternative its constraint through set_version, starting
+     from a relation chosen by the alternative's position in its entry (mod 4):
+       0  Relation::simple(name)                                   insert after the name
+       1  Relation::new(name, (=, v))                              replace the constraint
+       2  Relation::simple(name) + set_archqual("any")             insert after the qualifier
+       3  "name:any [amd64] <!nocheck>".parse::<Relation>()        the same, on a parsed relation *)
+  Definition any_str : str := [97; 110; 121]%N.
+  Definition decorated (name : str) : str :=
+    name ++ [58; 97; 110; 121; 32; 91; 97; 109; 100; 54; 52; 93; 32; 60; 33; 110; 111; 99; 104; 101; 99; 107; 62]%N.
+  Definition sv_start (mode : nat) (name : str) (v : V) : res rtree :=
+    match mode with
+    | 0 => Ok (relation_new name None)
+    | 1 => Ok (relation_new name (Some (OpEq, v)))
+    | 2 => Ok (set_archqual (relation_new name None) any_str)
+    | _ => relation_from_str (decorated name)
     end.
-  Fixpoint sv_relations (ctoks : vop -> list rtree) (odd : bool) (e : list rel) : res (list rtree) :=
+  Definition sv_relation (mode : nat) (r : rel) : res rtree :=
+    match r_ver r with
+    | None => Ok (relation_new (r_name r) None)
+    | Some (vc, v) => rmap (fun t => set_version_some t vc v) (sv_start mode (r_name r) v)
+    end.
+  Fixpoint sv_relations (mode : nat) (e : list rel) : res (list rtree) :=
     match e with
     | [] => Ok []
-    | r :: e' => bind (sv_relation ctoks odd r) (fun t =>
-                 bind (sv_relations ctoks (negb odd) e') (fun ts => Ok (t :: ts)))
+    | r :: e' => bind (sv_relation mode r) (fun t =>
+                 bind (sv_relations (match mode with 3 => 0 | m => S m end) e') (fun ts => Ok (t :: ts)))
     end.
-  Definition sv_field (ctoks : vop -> list rtree) (f : field) : res rtree :=
-    rmap relations_from (mapM (fun e => rmap entry_from (sv_relations ctoks false e)) f).
+  Definition sv_field (f : field) : res rtree :=
+    rmap relations_from (mapM (fun e => rmap entry_from (sv_relations 0 e)) f).
 
   (* ---------------- the specification (Policy §7.1), for a total comparison [cmp] -------- *)
   Definition op_holds (o : vop) (c : comparison) : bool :=
@@ -388,6 +363,6 @@ Definition deb_lossy_rel_sat := lossy_relation_satisfied_by version ver_cmp.
 Definition deb_ll_sat := ll_relations_satisfied_by version ver_cmp parse_version.
 Definition deb_ll_entry_sat := ll_entry_satisfied_by version ver_cmp parse_version.
 Definition deb_build_field := build_field version show_version.
-Definition deb_sv_field := sv_field version show_version (@constraint_tokens).
-Definition deb_sv_field_before_fix := sv_field version show_version (@constraint_tokens_before_fix).
+Definition deb_sv_field := sv_field version show_version.
+Definition deb_by_relation := by_relation version ver_cmp.
 Definition deb_spec := @satisfied_spec version vcmp.
